@@ -251,6 +251,11 @@ func checkC15(p *Prog, r *Report) {
 	rTab := r.Rule("symbol-tables", "encoder alphabet = Perl's ('`' for 0, else +32); decoder accepts exactly that alphabet (and space) and inverts it")
 	rFrame := r.Rule("framing", "45 bytes per line, length character 32+len, 3→4 grouping with zero padding, newline terminator")
 
+	/* The round trip is of the whole script: what FromPerl encodes is what
+	the file holds (C16's rule: nothing between the opened file and the
+	filter limits, decodes or rewrites the bytes). */
+	checkFilterFeed(p, r, r.Rule("source-to-filter", "what the Perl filter reads (and then encodes) is the file's own bytes, all of them"))
+
 	fns := uuFuncs(p)
 	if nil == p.Func(uuPkg, "", "AppendEncode") || nil == p.Func(uuPkg, "", "AppendDecode") {
 		rPure.Unproven("lib/uu", token.NoPos, "AppendEncode/AppendDecode not found")
